@@ -880,6 +880,22 @@ func TestC15(t *testing.T) {
 		{Key: "CDS", Loc: ljn(lrg(0, 20), lrg(30, 35), lrg(40, 60)), Quals: [][]string{{"label", "m0"}, {"gene", "a"}}},
 		{Key: "mRNA", Loc: lco(ljn(lrg(2, 9), lrg(12, 14), lrg(20, 23), lrg(44, 58))), Quals: [][]string{{"label", "m1"}, {"gene", "b"}}},
 	}
+	// a trans-spliced feature (two complemented parts in a row: a compound inside a compound) with gaps between its parts
+	tfeats := []Feat{
+		{Key: "misc_RNA", Loc: ljn(lrg(2, 8), lco(lrg(50, 56)), lco(lrg(30, 36))), Quals: [][]string{{"label", "t0"}, {"gene", "t"}}},
+		{Key: "misc_feature", Loc: lrg(40, 44), Quals: [][]string{{"label", "t1"}, {"note", "in the gap"}}},
+	}
+	for i := range tfeats {
+		tfeats[i].Loc, _ = fromGts(toGts(tfeats[i].Loc))
+	}
+	// (only the commands whose result does not depend on the strand of the parts: the harness's region model reads a
+	// location as one strand; delete removes the union, extract -v emits the unlocated stretches)
+	for _, tc := range []c15Case{{Cmd: "delete"}, {Cmd: "delete", Flag: true}, {Cmd: "extract", Flag: true}} {
+		tc.L, tc.Feats, tc.Locators, tc.GuestLen = 64, tfeats, []string{"misc_RNA"}, 2
+		if !em.try(tc) {
+			return
+		}
+	}
 	var mods []string
 	for _, k := range []int{0, 1, 5, 7, 9, 12, 19, 20, 21, 24, 25, 26, 30, 44} {
 		mods = append(mods, fmt.Sprintf("@^+%d", k), fmt.Sprintf("@$-%d", k), fmt.Sprintf("@^..^+%d", k), fmt.Sprintf("@$-%d..$", k), fmt.Sprintf("@^+%d..$-1", k))
